@@ -321,4 +321,31 @@ theorem C04_common_iterable_repaired :
     asg idCfg4 true (.iterable (.tspan ⟨1, 5⟩)) (.struct []) = true := by
   simp [asg, asgRecv, sameNullary, iterMembers]
 
+/-! ### known finding C04-common-unit (the exclusion of C01 / C03 seen through commonType): Unit is two-way assignable by definition,
+    so a type that holds Unit (here a Variant with a Unit member) accepts every type and is accepted by every type; `commonType` returns
+    the argument that accepts the other one, and the element fold of two Tuples passes through such a member to a type that rejects a
+    declared element: `commonType(Tuple[Integer[0,7], Timespan[1,2]], Tuple[Variant[Pattern, Unit], Undef]) = Array[Scalar, 2, 2]`, which
+    rejects the second Tuple (Undef is not a Scalar).  Found by the thorough tier on the implementation; `C04_common_partial` excludes
+    exactly Unit (`Ty.TA`).  The statement of C04 has no exclusion for Unit, so the full fifth law is REFUTED of the code. -/
+def cu_a : Ty := .tuple [.int ⟨0, 7⟩, .tspan ⟨1, 2⟩] none
+def cu_b : Ty := .tuple [.variant [.pattern [], .unit], .undef] none
+theorem cu_1 (n : Nat) : commonF idCfg4 true (n+1) (.int ⟨0, 7⟩) (.tspan ⟨1, 2⟩) = .scalar := by
+  simp [commonF, commonTail, Ty.isUnit, asg, asgRecv, sameNullary, isStringFamily, Rng.sub, Rng.all, floatAll, I64.min, I64.max]
+theorem cu_2 (n : Nat) : commonF idCfg4 true (n+1) (.variant [.pattern [], .unit]) .undef = .variant [.pattern [], .unit] := by
+  simp [commonF, Ty.isUnit, asg, asgRecv, asgAnyL, asgAllR, sameNullary, isStringFamily]
+theorem cu_3 (n : Nat) : commonF idCfg4 true (n+1) .scalar (.variant [.pattern [], .unit]) = .scalar := by
+  simp [commonF, Ty.isUnit, asg, asgRecv, asgAnyL, asgAllR, sameNullary, isStringFamily]
+theorem cu_c : commonType idCfg4 true cu_a cu_b = .array .scalar ⟨2, 2⟩ := by
+  simp [commonType, cu_a, cu_b, Ty.w, Ty.wl]
+  rw [commonF]
+  simp [Ty.isUnit, asg, asgRecv, asgAnyL, asgAllR, sameNullary, isStringFamily, tupleSize, tupZip, Rng.sub, Rng.exact, foldCet, cu_1, cu_2,
+    cu_3, Rng.hull]
+theorem cu_r : asg idCfg4 true (.array .scalar ⟨2, 2⟩) cu_b = false := by
+  simp [cu_b, asg, asgRecv, asgAnyL, asgAllR, sameNullary, isStringFamily, tupleSize, tupZip, Rng.sub, Rng.exact]
+theorem C04_common_full_fails_unit : ¬ C04_common_full := by
+  intro h
+  have := (h idCfg4 cu_a cu_b (by simp [cu_a, Ty.WF]) (by simp [cu_b, Ty.WF])).2
+  rw [cu_c, cu_r] at this
+  exact absurd this (by decide)
+
 end Pcore.Lat
